@@ -437,6 +437,56 @@ def shape_table(ctx, dims, maxrank):
                 if why:
                     ctx.violation("linopshape/%s/%s" % (which, prod), "%s operator batch %s, operand batch %s, %s: %s" % (which, a, b, prod, why),
                                   {"a": a, "b": b, "product": prod, "which": which})
+        # two OPERATORS with batch shapes a and b combined through the public algebra: declared shape and values
+        for which, mk in (("matrix", lambda m: LinearOperator.m(m, is_hermitian=False)), ("mv-only", lambda m: cls_mv(m, False))):
+            Ma = torch.randn(a + (2, 3), dtype=torch.float64)
+            Mb = torch.randn(b + (3, 2), dtype=torch.float64)
+            Ma2 = torch.randn(a + (2, 2), dtype=torch.float64)
+            Mb2 = torch.randn(b + (2, 2), dtype=torch.float64)
+            for comb, build, dense in (("matmul", lambda: mk(Ma).matmul(mk(Mb)), lambda: Ma @ Mb),
+                                       ("add", lambda: mk(Ma2) + mk(Mb2), lambda: Ma2 + Mb2),
+                                       ("sub", lambda: mk(Ma2) - mk(Mb2), lambda: Ma2 - Mb2),
+                                       ("matmul.H", lambda: mk(Ma).matmul(mk(Mb)).H, lambda: (Ma @ Mb).transpose(-2, -1))):
+                n += 1
+                ctx.case(key=("shape-composed", which, comb, a, b))
+                why = None
+                try:
+                    with warnings.catch_warnings():
+                        warnings.simplefilter("ignore")
+                        op2 = build()
+                        got = ("ok", op2)
+                except (RuntimeError, ValueError, IndexError) as ex:
+                    got = ("raise", str(ex)[:80])
+                if out["ok"]:
+                    exp = tuple(out["shape"])
+                    if got[0] == "raise":
+                        why = "raised (%s) although the batch shapes broadcast to %s" % (got[1], exp)
+                    else:
+                        D2 = dense()
+                        if tuple(op2.shape) != tuple(D2.shape):
+                            why = "declared shape %s, the dense combination has shape %s" % (tuple(op2.shape), tuple(D2.shape))
+                        else:
+                            try:
+                                xx = torch.randn(D2.shape[-1], dtype=torch.float64)
+                                v = op2.mv(xx)
+                                if tuple(v.shape) != exp + (D2.shape[-2],) or not torch.allclose(v, (D2 @ xx.unsqueeze(-1)).squeeze(-1), atol=1e-10):
+                                    why = "mv gives shape %s / wrong values (dense: %s)" % (tuple(v.shape), exp + (D2.shape[-2],))
+                                else:
+                                    F = op2.fullmatrix()
+                                    if tuple(F.shape) != tuple(D2.shape) or not torch.allclose(F, D2, atol=1e-10):
+                                        why = "fullmatrix gives shape %s / wrong values (dense shape %s)" % (tuple(F.shape), tuple(D2.shape))
+                            except (RuntimeError, ValueError, IndexError) as ex:
+                                why = "a product of the combined operator raised: %s" % str(ex)[:100]
+                elif got[0] == "ok":
+                    # the mismatch must be rejected at the latest when the combination is used (construction may be lazy)
+                    try:
+                        vv = op2.mv(torch.randn(op2.shape[-1], dtype=torch.float64))
+                        why = "operators with mismatched batch shapes were combined (declared shape %s) and mv returned shape %s" % (tuple(op2.shape), tuple(vv.shape))
+                    except (RuntimeError, ValueError, IndexError):
+                        pass
+                if why:
+                    ctx.violation("linopshape/composed/%s" % comb, "%s operators with batch shapes %s and %s combined by %s: %s" % (which, a, b, comb, why),
+                                  {"a": a, "b": b, "comb": comb, "which": which})
     return n
 
 
